@@ -66,6 +66,11 @@ inductive Instr where
   | setAttrConst (t : Var) (a : Attr) (c : Int)
   /-- `t.a = slot` -/
   | setAttrSlot (t : Var) (a : Attr) (slot : Nat)
+  /-- `t.a <op>= …` : in-place update of the *object attached as attribute `a`* (`grid.scale(m)`,
+      `input_stokes_vector *= …`); nothing happens to the field arrays -/
+  | inplaceAttr (op : Nat) (t : Var) (a : Attr)
+  /-- `t.a = t.a.copy()` : a fresh object with the same contents (`grid.scaled(m)` starts with this) -/
+  | copyAttr (t : Var) (a : Attr)
   deriving Repr
 
 structure Prog where
@@ -88,6 +93,17 @@ def InVal.get (v : InVal) : Attr → Int
 
 def InVal.obj (v : InVal) : Obj := ⟨0, v.wavelength, v.stokes, v.grid⟩
 
+/-- What a call is *seen* to do with the wavefront object it was given (for the behavioural tie; the
+harness records the same events on the running code with an instrumented `Wavefront`). -/
+inductive Touch where
+  /-- `.copy()` called on the input object itself -/
+  | copyInput
+  /-- a new `Wavefront` constructed around the very array of the input -/
+  | wrapInput
+  /-- an attribute of the input object assigned -/
+  | write (a : Attr)
+  deriving DecidableEq, Repr
+
 /-- The store. Functions rather than arrays: "unchanged at 0" is then a one-line fact. -/
 structure St where
   env : Var → Nat
@@ -98,6 +114,9 @@ structure St where
   nBuf : Nat
   /-- attribute writes on the input object, most recent first (for the behavioural tie) -/
   writes : List Attr
+  /-- everything done to the input object, most recent first: copies of it, wavefronts wrapped around
+      its array, attribute writes (for the behavioural tie) -/
+  touches : List Touch
 
 def upd {α} (f : Nat → α) (k : Nat) (v : α) : Nat → α := fun i => if i = k then v else f i
 
@@ -105,7 +124,7 @@ def upd {α} (f : Nat → α) (k : Nat) (v : α) : Nat → α := fun i => if i =
 for the checker: it is treated as the input itself). -/
 def init (v : InVal) : St :=
   { env := fun _ => 0, objs := fun _ => v.obj, bufs := fun _ => v.field, slots := fun _ => 0,
-    nObj := 1, nBuf := 1, writes := [] }
+    nObj := 1, nBuf := 1, writes := [], touches := [] }
 
 def bufOf (c : St) (x : Var) : Nat := (c.objs (c.env x)).buf
 def contents (c : St) (x : Var) : Int := c.bufs (bufOf c x)
@@ -116,11 +135,13 @@ def step (sem : Nat → List Int → Int) (c : St) : Instr → St
     { c with env := upd c.env d c.nObj,
              objs := upd c.objs c.nObj { c.objs (c.env s) with buf := c.nBuf },
              bufs := upd c.bufs c.nBuf (contents c s),
-             nObj := c.nObj + 1, nBuf := c.nBuf + 1 }
+             nObj := c.nObj + 1, nBuf := c.nBuf + 1,
+             touches := if c.env s = 0 then .copyInput :: c.touches else c.touches }
   | .wrap d s =>
     { c with env := upd c.env d c.nObj,
              objs := upd c.objs c.nObj (c.objs (c.env s)),
-             nObj := c.nObj + 1 }
+             nObj := c.nObj + 1,
+             touches := if bufOf c s = 0 then .wrapInput :: c.touches else c.touches }
   | .newFrom d op args like =>
     { c with env := upd c.env d c.nObj,
              objs := upd c.objs c.nObj { c.objs (c.env like) with buf := c.nBuf },
@@ -136,10 +157,14 @@ def step (sem : Nat → List Int → Int) (c : St) : Instr → St
   | .saveAttr slot s a => { c with slots := upd c.slots slot ((c.objs (c.env s)).get a) }
   | .setAttrConst t a v =>
     { c with objs := upd c.objs (c.env t) ((c.objs (c.env t)).set a v),
-             writes := if c.env t = 0 then a :: c.writes else c.writes }
+             writes := if c.env t = 0 then a :: c.writes else c.writes,
+             touches := if c.env t = 0 then .write a :: c.touches else c.touches }
   | .setAttrSlot t a slot =>
     { c with objs := upd c.objs (c.env t) ((c.objs (c.env t)).set a (c.slots slot)),
-             writes := if c.env t = 0 then a :: c.writes else c.writes }
+             writes := if c.env t = 0 then a :: c.writes else c.writes,
+             touches := if c.env t = 0 then .write a :: c.touches else c.touches }
+  | .inplaceAttr _ _ _ => c
+  | .copyAttr _ _ => c
 
 def exec (sem : Nat → List Int → Int) (c : St) (p : List Instr) : St := p.foldl (step sem) c
 
@@ -153,13 +178,17 @@ structure Outcome where
   retIsInput : Bool
   retSharesBuf : Bool
   writes : List Attr
+  /-- copies of / wrappers around / attribute writes on the input object, in program order -/
+  touches : List Touch
+  /-- number of wavefront objects the call created -/
+  created : Nat
 
 def call (sem : Nat → List Int → Int) (p : Prog) (v : InVal) : Outcome :=
   let c := exec sem (init v) p.body
   { result := (contents c p.ret, { c.objs (c.env p.ret) with buf := 0 }),
     inputField := c.bufs 0, inputObj := c.objs 0,
     retIsInput := c.env p.ret == 0, retSharesBuf := bufOf c p.ret == 0,
-    writes := c.writes.reverse }
+    writes := c.writes.reverse, touches := c.touches.reverse, created := c.nObj - 1 }
 
 /-! ## The static checker -/
 
@@ -191,6 +220,8 @@ def checkStep (A : Abs) : Instr → Option Abs
             (if A.slots slot = some a then { A with dirty := A.dirty.filter (· ≠ a) }
              else { A with dirty := a :: A.dirty })
           else A)
+  | .inplaceAttr _ _ _ => some A
+  | .copyAttr _ _ => some A
 
 def check : List Instr → Abs → Option Abs
   | [], A => some A
@@ -207,15 +238,134 @@ def safe (p : Prog) : Bool :=
   | none => false
 
 
+/-! ## The objects attached to a wavefront: grid and Stokes vector as heap objects
+
+The grid (`wavefront.electric_field.grid`, with its cached weights) and the Stokes vector are mutable
+Python objects of their own; several wavefronts may point to the same one.  Field arrays, grid
+objects and Stokes vectors never overlap, so the store is the product of three heaps with the same
+shape — *wavefront object → pointer → contents* — and the meaning of an instruction on the heap of
+attribute `a` is again a list of instructions of the same language (`viewInstr`):
+
+* `wavefront.copy()` (`copy.deepcopy`) copies the Stokes vector (a `copy` on that heap) but **not the
+  grid**: the field is an `ndarray` subclass, `ndarray.__deepcopy__` copies the data and
+  `Field.__array_finalize__` hands the *same* grid object to the copy (a `wrap` on the grid heap);
+* `Wavefront(s.electric_field, …, s.input_stokes_vector)` and `Wavefront(Field(new, like.grid), …)`
+  point to the **same grid object** as `s` / `like` (a `wrap` on the grid heap) and to a **copy** of
+  the Stokes vector (`np.array(input_stokes_vector)` in `Wavefront.__init__`: a `copy` on that heap);
+* `t.a <op>= …` (`inplaceAttr`) is an in-place update on the heap of `a`; `t.a = t.a.copy()`
+  (`copyAttr`) and `t.a = <new object>` (`setAttrConst`) re-point `t` to a fresh cell;
+* saving / restoring the pointer itself (`saveAttr`/`setAttrSlot` on `a`) is not supported on the heap
+  of `a` (no shipped element does it): the program then has no view and is not accepted.
+
+`safeAttr a p` runs the *same* checker on the view, so `safe_sound` applies verbatim:
+`safe_sound_attr` (Properties/C06.lean): the contents of the grid / Stokes vector the caller passed
+in are what they were. -/
+
+def viewInstr (a : Attr) : Instr → Option (List Instr)
+  | .copy d s => some [if a = .grid then .wrap d s else .copy d s]
+  | .wrap d s => some [if a = .grid then .wrap d s else .copy d s]
+  | .newFrom d _ _ like => some [if a = .grid then .wrap d like else .copy d like]
+  | .bind d s => some [.bind d s]
+  | .inplace _ _ _ => some []
+  | .setFieldNew _ _ _ => some []
+  | .saveAttr _ _ b => if b = a then none else some []
+  | .setAttrConst t b _ => if b = a then some [.setFieldNew t 0 []] else some []
+  | .setAttrSlot _ b _ => if b = a then none else some []
+  | .inplaceAttr op t b => if b = a then some [.inplace op t []] else some []
+  | .copyAttr t b => if b = a then some [.setFieldNew t 0 [t]] else some []
+
+/-- the view of an instruction list (`none` as soon as one instruction has no view) -/
+def viewList (a : Attr) : List Instr → Option (List Instr)
+  | [] => some []
+  | i :: l => match viewInstr a i, viewList a l with
+    | some x, some y => some (x ++ y)
+    | _, _ => none
+
+def viewProg (a : Attr) (p : Prog) : Option Prog :=
+  match viewList a p.body with
+  | some l => some ⟨l, p.ret⟩
+  | none => none
+
+/-- the checker's verdict on what `p` does to the objects attached as attribute `a` -/
+def safeAttr (a : Attr) (p : Prog) : Bool :=
+  match viewProg a p with
+  | some q => safe q
+  | none => false
+
+/-- field arrays, grid objects and Stokes vectors -/
+def safeAll (p : Prog) : Bool := safe p && safeAttr .grid p && safeAttr .stokes p
+
+/-- Contents, after the call, of the object that was attached to the input as attribute `a` and held
+`g` before (`none`: the program has no view). -/
+def attrContentsAfter (sem : Nat → List Int → Int) (a : Attr) (p : Prog) (v : InVal) (g : Int) : Option Int :=
+  match viewProg a p with
+  | some q => some (call sem q { v with field := g }).inputField
+  | none => none
+
+/-- does the returned wavefront point to the very object attached to the input as attribute `a`? -/
+def retSharesAttr (sem : Nat → List Int → Int) (a : Attr) (p : Prog) (v : InVal) : Option Bool :=
+  match viewProg a p with
+  | some q => some (call sem q v).retSharesBuf
+  | none => none
+
+/-! ## Programs with a loop (multi-scale coronagraphs: one round per scale; layered atmosphere: one per element)
+
+`L.unroll n` is the program with `n` rounds of the loop body.  The checker is run on the programs with
+zero and one round (`LoopProg.baseAll`, decidable); that the state the checker reaches after one
+round is reproduced by another round (`LoopProg.Fix`) is proved per program
+(Lemmas/EffectLoops.lean), and `Lemmas/Effects.lean: loop_safeAll` concludes that every unrolling is
+accepted on all three heaps. -/
+
+def rounds (n : Nat) (body : List Instr) : List Instr := (List.replicate n body).flatten
+
+structure LoopProg where
+  pre : List Instr
+  body : List Instr
+  post : List Instr
+  ret : Var
+
+def LoopProg.unroll (L : LoopProg) (n : Nat) : Prog := ⟨L.pre ++ rounds n L.body ++ L.post, L.ret⟩
+
+def LoopProg.view (a : Attr) (L : LoopProg) : Option LoopProg :=
+  match viewList a L.pre, viewList a L.body, viewList a L.post with
+  | some p, some b, some q => some ⟨p, b, q, L.ret⟩
+  | _, _, _ => none
+
+/-- the checker's abstract state after instruction list `p` (from the initial state) -/
+def stateAfter (p : List Instr) : Abs :=
+  match check p Abs.init with
+  | some A => A
+  | none => Abs.init
+
+/-- the checker's state after one round is reproduced by another round -/
+def LoopProg.Fix (L : LoopProg) : Prop :=
+  check L.body (stateAfter (L.pre ++ L.body)) = some (stateAfter (L.pre ++ L.body))
+
+/-- … on the field heap and on every heap on which the program has a view -/
+def LoopProg.FixAll (L : LoopProg) : Prop := L.Fix ∧ ∀ a L', L.view a = some L' → L'.Fix
+
+/-- decidable part: zero rounds and one round are accepted -/
+def LoopProg.base (L : LoopProg) : Bool := safe (L.unroll 0) && safe (L.unroll 1)
+
+/-- … on all three heaps -/
+def LoopProg.baseAll (L : LoopProg) : Bool :=
+  L.base && [Attr.grid, Attr.stokes].all fun a => match L.view a with
+    | some L' => L'.base
+    | none => false
+
 /-! # Element-internal cells
 
 What a call may keep *inside the element* between calls.  Two kinds of storage:
 
-* **memo cells** — `cell c` holds `some (tag, value)`: a value together with the key it was computed
-  for (`self._surface` with `_actuators_for_cached_surface`; `_achromatic_screen` for the current
-  centre; an `InstanceData` under its (grid, wavelength) key; MFT matrices under their dtype).
-  `memoFill c e` stores `(current key of c, e)`; `memoRead r c fb` yields the stored value when the
-  stored tag equals the current key of `c` and the fallback `fb` (recomputation) otherwise.
+* **memo cells** — `cell c` holds a list of `(tag, value)` entries, newest first: values together
+  with the key they were computed for (`self._surface` with `_actuators_for_cached_surface`;
+  `_achromatic_screen` for the current centre; `InstanceData`s under their (grid, wavelength) keys in
+  `_instance_data_cache`; MFT matrices under their dtype).  A cell keeps at most `cap c` entries
+  (1 for a single cached value, `max_in_cache = 11` for the instance cache; which entry is evicted
+  when the cache is full is C05's subject, histories replayed against the code stay below the cap).
+  `memoFill c e` stores `(current key of c, e)` in front, replacing an entry with the same key;
+  `memoRead r c fb` yields the value stored under the current key of `c` (a *hit*, `cellHit`) and
+  the fallback `fb` (recomputation) when there is none (a *miss*).
 * **scratch buffers** — `scratch b` (the `internal_array` of an FFT object, the
   `intermediate_array` of an MFT): overwritten with input data on every call.
 
@@ -260,6 +410,19 @@ structure IProg where
   spec : Nat → IExpr
   body : List IInstr
   ret : IExpr
+  /-- number of entries cell `c` keeps -/
+  cap : Nat → Nat := fun _ => 1
+
+abbrev Entries := List (List Int × Int)
+
+/-- the value stored under `tag`, if any -/
+def lookup (tag : List Int) : Entries → Option Int
+  | [] => none
+  | (t, v) :: rest => if t = tag then some v else lookup tag rest
+
+/-- store `(tag, v)` in front, dropping an older entry with the same tag, keep at most `cap`. -/
+def insertEntry (cap : Nat) (tag : List Int) (v : Int) (l : Entries) : Entries :=
+  ((tag, v) :: l.filter (fun e => e.1 ≠ tag)).take cap
 
 /-- Interpretation of the opaque operations. -/
 structure ISem where
@@ -269,11 +432,11 @@ structure ISem where
 /-- The element between calls. -/
 structure EState where
   params : Nat → Int
-  cells : Nat → Option (List Int × Int)
+  cells : Nat → Entries
   scratch : Nat → Int
 
 def EState.fresh (params : Nat → Int) : EState :=
-  { params := params, cells := fun _ => none, scratch := fun _ => 0 }
+  { params := params, cells := fun _ => [], scratch := fun _ => 0 }
 
 def atomEnv (params : Nat → Int) (v : InVal) : Atom → Int
   | .param i => params i
@@ -289,27 +452,26 @@ def evalI (S : ISem) (ρ : Atom → Int) (fld : Int) (loc : Nat → Int) : IExpr
 
 /-- Running state of one call. -/
 structure IRun where
-  cells : Nat → Option (List Int × Int)
+  cells : Nat → Entries
   scratch : Nat → Int
   loc : Nat → Int
 
 def stepI (S : ISem) (p : IProg) (ρ : Atom → Int) (fld : Int) (c : IRun) : IInstr → IRun
   | .letE r e => { c with loc := upd c.loc r (evalI S ρ fld c.loc e) }
-  | .memoFill k e => { c with cells := upd c.cells k (some ((p.keyAtoms k).map ρ, evalI S ρ fld c.loc e)) }
+  | .memoFill k e =>
+    { c with cells := upd c.cells k (insertEntry (p.cap k) ((p.keyAtoms k).map ρ) (evalI S ρ fld c.loc e) (c.cells k)) }
   | .memoRead r k fb =>
-    match c.cells k with
-    | some (tag, val) =>
-      if tag = (p.keyAtoms k).map ρ then { c with loc := upd c.loc r val }
-      else { c with loc := upd c.loc r (evalI S ρ fld c.loc fb) }
+    match lookup ((p.keyAtoms k).map ρ) (c.cells k) with
+    | some val => { c with loc := upd c.loc r val }
     | none => { c with loc := upd c.loc r (evalI S ρ fld c.loc fb) }
   | .cellUpdate k e =>
     match c.cells k with
-    | some (tag, _) => { c with cells := upd c.cells k (some (tag, evalI S ρ fld c.loc e)) }
-    | none => c
+    | (tag, _) :: rest => { c with cells := upd c.cells k ((tag, evalI S ρ fld c.loc e) :: rest) }
+    | [] => c
   | .rawRead r k =>
     match c.cells k with
-    | some (_, val) => { c with loc := upd c.loc r val }
-    | none => { c with loc := upd c.loc r 0 }
+    | (_, val) :: _ => { c with loc := upd c.loc r val }
+    | [] => { c with loc := upd c.loc r 0 }
   | .scratchWrite b e => { c with scratch := upd c.scratch b (evalI S ρ fld c.loc e) }
   | .scratchRead r b => { c with loc := upd c.loc r (c.scratch b) }
 
@@ -321,6 +483,12 @@ def callI (S : ISem) (p : IProg) (E : EState) (v : InVal) : Int × EState :=
   let ρ := atomEnv E.params v
   let c := execI S p ρ v.field ⟨E.cells, E.scratch, fun _ => 0⟩ p.body
   (evalI S ρ v.field c.loc p.ret, { E with cells := c.cells, scratch := c.scratch })
+
+/-- **Hit or miss**: does cell `c` of the element in state `E` hold a value for the key of a call with
+input `v`?  (What the harness observes on the code as "nothing recomputed" / "`make_instance` ran",
+"`linear_combination` ran".) -/
+def cellHit (p : IProg) (E : EState) (v : InVal) (c : Nat) : Bool :=
+  (lookup ((p.keyAtoms c).map (atomEnv E.params v)) (E.cells c)).isSome
 
 /-- What can happen to an element between two observations. -/
 inductive Event where
